@@ -34,6 +34,8 @@ class myprop(property):
     """a sub-class of property with behaviour of its own"""
     def tag(self):
         return "tagged"
+    def __set_name__(self, owner, name):
+        self.bound_as = (owner.__name__, name)
 class Boom(Exception): pass
 BOOM = Boom("from body")
 RES = {"mode": "ret"}
@@ -510,6 +512,7 @@ def class_script(ns, style, child):
     rec("doc_q", lambda: Root.q.__doc__)
     rec("doc_w2", lambda: Root.w2.__doc__)
     rec("sp", lambda: (type(inspect.getattr_static(Root, "sp")).__name__, inspect.getattr_static(Root, "sp").tag(), Root.sp.__doc__))
+    rec("sp_set_name", lambda: getattr(inspect.getattr_static(Root, "sp"), "bound_as", None))
     rec("doc_q2", lambda: Root.q2.__doc__)
     if child and "Child" in ns:
         rec("child_q2", lambda: (type(inspect.getattr_static(ns["Child"], "q2")).__name__, ns["Child"].q2.__doc__))
